@@ -248,6 +248,15 @@ public:
     Utest* createTest() CPPUTEST_OVERRIDE { return new ScriptTest(begin + 1, end); }
 };
 
+// installed FIRST, so its post action runs before the leak plugin's: reports a failure straight into the result (as MockSupportPlugin
+// or IEEE754ExceptionsPlugin do) when the end line of the test says so (arg2 = 1)
+class OtherPlugin : public TestPlugin
+{
+public:
+    OtherPlugin() : TestPlugin("other") {}
+    void postTestAction(UtestShell& t, TestResult& r) CPPUTEST_OVERRIDE;
+};
+
 // installed last, so its pre action runs before the leak plugin's and its post action after it
 class ProbePlugin : public TestPlugin
 {
@@ -276,6 +285,12 @@ public:
         cur_end = -1;
     }
 };
+
+void OtherPlugin::postTestAction(UtestShell& t, TestResult& r)
+{
+    ScriptShell& s = (ScriptShell&) t;
+    if (lines[s.end].arg2 == 1) r.addFailure(TestFailure(&t, "own check failed (reported by another plugin's post action)"));
+}
 
 static void emit(FILE* out, const Line& L)
 {
@@ -321,6 +336,7 @@ static void run_execution(FILE* out)
     }
     if (bad || open >= 0) { fprintf(out, "{\"op\":\"harness-error\",\"what\":\"malformed program\"}\n"); return; }
     for (size_t i = shells.size(); i-- > 0;) reg->addTest(shells[i]);      // addTest prepends
+    reg->installPlugin(new OtherPlugin);
     reg->installPlugin(plugin);
     reg->installPlugin(probe);
     TestRegistry* savedReg = TestRegistry::getCurrentRegistry();
